@@ -297,6 +297,14 @@ JOBS = {
         assumes=[NAT_ASSUME, "scipy.special.binom(n, k) on small non-negative ints is the binomial coefficient (float arithmetic treated as exact)",
                  "the number of k-subsets of an n-set is Nat.choose n k (Mathlib's definition), so the theorem's right-hand side is the number of node sets T of a max_size-face with min_size <= |T| < max_size"],
         drops=[]),
+    "handshake": dict(
+        prop="C06", function="contracts: UInv / DInv (pyvc/spec.py)", template="handshake_theorems.lean", section="handshake",
+        gen=lambda: "",
+        theorems=[("degrees-sum-to-sizes", "handshake"), ("directed-degrees-sum-to-tail-and-head-sizes", "handshake_directed")],
+        assumes=["a lemma over the contracts, not over code: the two-way clause of UInv / DInv, restated over Finsets (finite key sets, member sets as Finsets), implies "
+                 "sum of degrees = sum of sizes; the bridge `z3 tables restricted to their keys = Finset-valued functions, card = Finset.card` is assumed",
+                 "the statistics degree / size equal card of the table entries: proved separately (stat definitions, z3)"],
+        drops=[]),
     "boundary_signs": dict(
         prop="C13", function="xgi/linalg/hodge_matrix.py::boundary_matrix", template="boundary_theorems.lean", section="boundary_matrix",
         gen=_boundary_defs,
